@@ -143,6 +143,14 @@ def assert_fact(model, inst, f, form):
         else:
             cur.update({to})
         return "bulk"
+    if form == "iadd":
+        # augmented assignment: the container's own in-place operator, then the field is set to the container it already holds
+        if is_list:
+            cur += [to]
+        else:
+            cur |= {to}
+        setattr(so, attr, cur)
+        return "iadd"
     if form == "insert" and is_list:
         cur.insert(0, to)
         return "insert"
